@@ -319,6 +319,51 @@ func runC16(c *Check) {
 			} else {
 				c.Decide("C16-R3", "SubmitWithOptions ⟂ stop-at-first-misfit", fn, dp.InstrPos(full[0].In), "after the first blob that does not fit nothing more is appended (longest prefix)",
 					"after a blob that does not fit a later one can still be appended: the submitted list is not a prefix and the count reported does not identify what was sent", g, g.PathAvoiding(full, nodeSet(apps), nil))
+				// what the running size counts: it starts at zero and grows by the length of a blob —
+				// nothing else (options, a header, a per-request overhead) is charged against the
+				// DA layer's blob size limit, which the DA layer itself applies to the blobs only
+				{
+					var cur *Term
+					EdgeWhere(func(t *Term, pol bool, n *Node) bool {
+						if cur != nil || !misfit(t, pol) {
+							return false
+						}
+						a, _, b, _ := canonCmp(t, pol)
+						a, b = a.unconv(), b.unconv()
+						sum := b
+						if !(isLimit(a) && b.Op == "bin" && b.Name == "+") {
+							if a.Op == "bin" && a.Name == "-" {
+								cur = a.Args[1].unconv()
+							}
+							return false
+						}
+						for _, x := range sum.Args {
+							if !strings.HasPrefix(x.unconv().String(), "len(") {
+								cur = x.unconv()
+							}
+						}
+						return false
+					})(full[0])
+					okStart, why := cur != nil, "the running size was not identified"
+					if cur != nil {
+						for _, l := range flattenPhi(cur) {
+							lu := l.unconv()
+							switch {
+							case lu.Op == "const" && lu.Name == "0":
+							case lu.Op == "bin" && lu.Name == "+" && len(lu.Args) == 2 && (strings.HasPrefix(lu.Args[0].unconv().String(), "len(") || strings.HasPrefix(lu.Args[1].unconv().String(), "len(")):
+							case lu.Op == "load" || lu.Op == "alloc":
+								// a captured cell: decided by the closure form below
+							default:
+								okStart, why = false, "the running size can start from or grow by "+trunc(lu.String(), 60)
+							}
+						}
+					}
+					if okStart {
+						c.OK("C16-R3", "SubmitWithOptions ⟂ running size counts the blobs only", fn, dp.InstrPos(full[0].In), "the running size starts at 0 and grows by the length of each appended blob", true)
+					} else {
+						c.Bad("C16-R3", "SubmitWithOptions ⟂ running size counts the blobs only", fn, dp.InstrPos(full[0].In), why+": the client cuts the list earlier than the DA layer itself would (the limit is on the blobs), and a single blob that the DA layer accepts can be refused as too big — the same call gives other ids through the proxy than in-process", nil)
+					}
+				}
 				facts := g.NecessaryEdges(nodeSet(apps))
 				fits := false
 				for _, f := range facts {
